@@ -77,7 +77,7 @@ def _build_term(ex, tag, t):
         body = SymStr(tuple(t.get("base", "http://a.b/")) + tuple(_free(ex, tag, t.get("k", 0), c_iri)) + tuple(t.get("post", "")))
         return "<" + body + ">", dict(cls="IRI", val=body), dict(iri=body)
     if kind == "bnode":
-        label = SymStr(tuple("_:b") + tuple(_free(ex, tag, t.get("k", 0), c_label)))
+        label = SymStr(tuple("_:b") + tuple(_free(ex, tag, t.get("k", 0), c_label)) + tuple(t.get("mid", "")) + tuple(_free(ex, tag + "x", t.get("k2", 0), c_label)))
         return label, dict(cls="BNode", val=label), dict(label=label)
     if kind == "lit":
         items = []
@@ -361,6 +361,8 @@ S_BN = {"kind": "bnode", "k": 2}
 O_IRI_FREE = {"kind": "iri", "base": "http://a.b/o", "k": 2}
 O_IRI_HASH = {"kind": "iri", "base": "http://a.b/o#", "k": 1, "post": "@_:x"}
 O_BN = {"kind": "bnode", "k": 2}
+O_BN_DOT = {"kind": "bnode", "k": 1, "mid": ".", "k2": 1}      # BLANK_NODE_LABEL may contain '.' (not at the end)
+S_BN_DOT = {"kind": "bnode", "k": 1, "mid": ".1-", "k2": 1}
 
 
 def _lit(body, suffix):
@@ -406,8 +408,8 @@ def skeletons(tier):
             for seps in (["\t", "\t"], ["  ", " "], [" ", "   "], ["\t ", " \t"]):
                 out.append(("seps%r/%s/%s" % ("".join(seps), bname, sname), _one(S_IRI, _lit(body, sfx), seps=seps)))
     # node kinds
-    for sname, s in [("iri", S_IRI_FREE), ("bnode", S_BN)]:
-        for oname, o in [("iri", O_IRI_FREE), ("irihash", O_IRI_HASH), ("bnode", O_BN), ("lit", _lit([F], NONE)), ("litdt", _lit([F], DT_INT))]:
+    for sname, s in [("iri", S_IRI_FREE), ("bnode", S_BN), ("bnodedot", S_BN_DOT)]:
+        for oname, o in [("iri", O_IRI_FREE), ("irihash", O_IRI_HASH), ("bnode", O_BN), ("bnodedot", O_BN_DOT), ("lit", _lit([F], NONE)), ("litdt", _lit([F], DT_INT))]:
             for tail in ("sp_dot", "dot", "sp_dot_comment"):
                 out.append(("nodes/%s/%s/%s" % (sname, oname, tail), _one(s, o, tail=tail, comment_k=1, pred={"base": "http://a.b/p", "k": 1})))
     # two statements: document order
